@@ -48,6 +48,13 @@ type World struct {
 	// CanonI: inline simple pure helpers while rendering
 	ledgerKindDepth int
 	roMemo          map[*ssa.Function]bool
+	// sinkAliases: further loads of the same slice element in one iteration (mustSink)
+	sinkAliases map[ssa.Value][]ssa.Value
+	// mayScope: callers considered when mayCanons resolves a helper parameter (nil: all)
+	mayScope map[*ssa.Function]bool
+	// argVal: the argument value bound to a helper parameter, by the plain canonical
+	// form the parameter prints as while the helper is expanded
+	argVal          map[string]ssa.Value
 	nilImplMemo     map[*ssa.Function][]nilImplication
 	nilFilters      *[]string
 	prefixFwdMemo   map[*ssa.Function]*ssa.Call
